@@ -190,8 +190,10 @@ struct Conv {
         if (auto b = holds("field converted back", back, c)) {
             return b;
         }
-        if (dump_of(back) != d0) {
-            return std::string("converting back does not reproduce the original dump byte-for-byte");
+        // byte-for-byte only where the storage has no padding cells (row-major): what padding cells of curve layouts
+        // hold is not part of this property (values at every lattice coordinate were compared above)
+        if (L1 == Lay::strided ? dump_of(back) != d0 : dump_of(back).size() != d0.size()) {
+            return std::string("converting back does not reproduce the original dump");
         }
         bool cube_pow2 = true;
         for (auto e : c.ext) {
@@ -357,8 +359,11 @@ struct Stack {
         if (auto b = matrix_is("field converted back", back, c)) {
             return b;
         }
-        if (dump_of(back) != d0) {
-            return std::string("converting the whole stack back does not reproduce the original dump byte-for-byte");
+        if (L1 == Lay::strided ? dump_of(back) != d0 : dump_of(back).size() != d0.size()) {
+            return std::string("converting the whole stack back does not reproduce the original dump");
+        }
+        if (auto b = storage_holds<S1>("stack converted back", back.backend().get_backend().get_backend(), c)) {
+            return b;
         }
         Hasher h;
         h.vec(c.ext).pod(c.seed).pod(c.move).vec(c.matrix);
